@@ -39,12 +39,18 @@ type UDPOpts struct {
 	OnNewConn  func(cc *client.Conn)
 	BlockWise  bool
 	Extra      []server.Option // real options (e.g. options.WithInactivityMonitor) applied after the harness defaults
+	QueueSize  int             // ReceivedMessageQueueSize of the per-peer connections (0 = library default)
+	Wildcard   bool            // bind the listener to 0.0.0.0 (destination addresses then come from control messages)
 }
 
 // NewUDP builds the server and starts Serve in a library thread (call from a managed thread).
 func NewUDP(o UDPOpts) *UDP {
 	u := &UDP{}
-	sock, err := net.ListenUDP("udp4", &net.UDPAddr{IP: net.IPv4(127, 0, 0, 1)})
+	bind := net.IPv4(127, 0, 0, 1)
+	if o.Wildcard {
+		bind = net.IPv4zero
+	}
+	sock, err := net.ListenUDP("udp4", &net.UDPAddr{IP: bind})
 	if err != nil {
 		panic(err)
 	}
@@ -65,6 +71,9 @@ func NewUDP(o UDPOpts) *UDP {
 		}
 		if o.Monitor != nil {
 			cfg.CreateInactivityMonitor = o.Monitor
+		}
+		if o.QueueSize != 0 {
+			cfg.ReceivedMessageQueueSize = o.QueueSize
 		}
 		cfg.OnNewConn = func(cc *client.Conn) {
 			u.NewConns++
@@ -93,6 +102,11 @@ func NewUDP(o UDPOpts) *UDP {
 // Send queues a datagram from the given peer.
 func (u *UDP) Send(from *net.UDPAddr, data []byte) {
 	u.PC.In = append(u.PC.In, coapNet.VerifPacket{Data: append([]byte{}, data...), From: from})
+}
+
+// SendDst queues a datagram whose control message reports dst as its destination address.
+func (u *UDP) SendDst(from *net.UDPAddr, dst net.IP, data []byte) {
+	u.PC.In = append(u.PC.In, coapNet.VerifPacket{Data: append([]byte{}, data...), From: from, Dst: dst})
 }
 
 // NewOuts returns what the server wrote since the last call.
